@@ -245,6 +245,7 @@ namespace
         int retargets = 0;
         bool coincident = false;
         long last_raw_tick[2] = {-100, -100};
+        std::set<std::string> last_removed[2];
         // checker-side copies, maintained from the logged deltas
         std::set<std::string> copy[2];
         bool rebase[2] = {true, true};
@@ -252,8 +253,19 @@ namespace
         auto keys_of = [](const std::set<std::string> &items) { std::set<std::string> r; for (auto &i : items) r.insert(i.substr(0, i.find('='))); return r; };
         for (long c = 0; c < run.cycles; ++c)
         {
+            const std::set<std::string> last_removed_before[2] = {last_removed[0], last_removed[1]};
+            auto model_keys = [&](const TargetModel &m) { std::set<std::string> r; for (long x : m.set) r.insert(std::to_string(x)); for (auto &[k2, v2] : m.map) r.insert(std::to_string(k2)); return r; };
+            const std::set<std::string> keys_before[2] = {model_keys(tm[0]), model_keys(tm[1])};
             const bool tick[2] = {model_apply<Sh>(tm[0], a[static_cast<std::size_t>(c)]), model_apply<Sh>(tm[1], b[static_cast<std::size_t>(c)])};
             const bool raw_tick[2] = {!a[static_cast<std::size_t>(c)].empty(), !b[static_cast<std::size_t>(c)].empty()};
+            for (int q = 0; q < 2; ++q)
+                if (raw_tick[q])
+                {
+                    // what the target's own last tick removed (its slot delta keeps that until its next mutation)
+                    last_removed[q].clear();
+                    const auto now_keys = model_keys(tm[q]);
+                    for (auto &k2 : keys_before[q]) if (!now_keys.count(k2)) last_removed[q].insert(k2);
+                }
             int new_sel = selected;
             if (!sel[static_cast<std::size_t>(c)].empty()) new_sel = sel[static_cast<std::size_t>(c)] == "v1" ? 0 : 1;
             const bool retarget = new_sel != selected;
@@ -290,8 +302,8 @@ namespace
             auto sub = [&](const std::string &what) {
                 std::string w = " [";
                 w += program; w += Sh::name; w += ": " + what + "; ";
-                w += std::string{"new target "} + (selected >= 0 && raw_tick[selected] ? "ticks now" : (selected >= 0 && last_raw_tick[selected] == c - 1 ? "ticked the cycle before" : "quiet"));
-                w += std::string{", old target "} + (old_target >= 0 && raw_tick[old_target] ? "ticks now" : (old_target >= 0 && last_raw_tick[old_target] == c - 1 ? "ticked the cycle before" : "quiet"));
+                w += std::string{"old target "} + (old_target >= 0 && raw_tick[old_target] ? "ticks now" : (old_target >= 0 && last_raw_tick[old_target] == c - 1 ? "ticked the cycle before" : "quiet"));
+                w += std::string{", new target "} + (selected >= 0 && raw_tick[selected] ? "ticks now" : (selected >= 0 && last_raw_tick[selected] == c - 1 ? "ticked the cycle before" : "quiet"));
                 return w + "]";
             };
             for (int k = 0; k < (program == '2' ? 2 : 1); ++k)
@@ -353,8 +365,10 @@ namespace
                     for (auto &k2 : rem) if (!before_keys.count(k2))
                     {
                         out.violation = "cycle " + std::to_string(c) + ": delta reports " + k2 + " as removed but the consumer's view did not hold it (view before: " + show(before) + ", value now " + e.value + ")";
-                        if (adjacent) out.sig_class = adjacent_class + sub("phantom removal");
-                        else if (retarget) out.sig_class = stale_class;
+                        // the element is one the OLD target removed in its own last tick (however long ago): the stale-removal finding
+                        if (retarget && program != 'n' && old_target >= 0 && old_target != selected && last_removed_before[old_target].count(k2)) out.sig_class = stale_class;
+                        else if (adjacent) out.sig_class = adjacent_class + sub("phantom removal");
+                        else if (retarget) out.sig_class = stale_class + " (element not in the old target's last removal)";
                         break;
                     }
                     if (!out.violation) for (auto &k2 : add) if (before_keys.count(k2))
